@@ -208,6 +208,8 @@ func workloads() []workload {
 		{"first-use-bezier", "model2d.BezierCurve.Eval / CachedEvalX of high-degree curves, first evaluations of each degree made concurrently in a fresh process", wFirstUseBezier},
 		{"wrapped-colliders", "model3d.TransformCollider / ProfileCollider / JoinedCollider of primitives: concurrent ray and ball queries on one object", wWrappedColliders},
 		{"uv-mapfn", "model3d.MeshUVMap.MapFn: one lookup function shared by all goroutines (the texture-fill pattern)", wMapFn},
+		{"cache-many-keys", "model2d.CacheScalarFunc / BezierCurve.CachedEvalX shared by all goroutines and asked for several hundred thousand distinct arguments", wCacheManyKeys},
+		{"large-builds", "NewBVHAreaDensity / MeshToCollider / MeshToSDF / NewCoordTree over more than 20000 objects (2D and 3D): builds are deterministic, complete and race-free, then queried concurrently", wLargeBuilds},
 		{"joined-shared-child", "model3d.NewJoinedCollider: several goroutines build and query their own join over one shared child collider", wJoinedSharedChild},
 	}
 }
